@@ -431,6 +431,8 @@ func (p *Probe) Uninstall(e *Env) {
 type Program struct {
 	N       int      `json:"n"`
 	Commits []int    `json:"commits"`
+	// Writes[j]: log rows of the ledger made durable by the j-th writing commit
+	Writes []int `json:"writes"`
 	Kinds   []string `json:"kinds,omitempty"`
 	Status  int      `json:"status"`
 	OK      bool     `json:"ok"`
@@ -462,7 +464,24 @@ func Measure(base *Env, worker string, rq Req, warm ...bool) (Program, error) {
 	if err != nil {
 		return Program{}, err
 	}
-	return Program{N: p.N, Commits: append([]int{}, p.Commits...), Kinds: p.Kinds, Status: res.Status, OK: res.OK,
+	writes := []int{}
+	prev := -1
+	for _, d := range p.Durable {
+		if prev < 0 {
+			// log rows present before the request
+			prev = 0
+			if rows, err := base.PG.Dump(bucketOf(base, rq.L), "logs"); err == nil {
+				for _, r := range rows {
+					if s, ok := r["ledger"].(string); ok && s == rq.L {
+						prev++
+					}
+				}
+			}
+		}
+		writes = append(writes, d.NLogs-prev)
+		prev = d.NLogs
+	}
+	return Program{N: p.N, Commits: append([]int{}, p.Commits...), Writes: writes, Kinds: p.Kinds, Status: res.Status, OK: res.OK,
 		Events: len(f.St.Listener.Snapshot()), Changed: before.Hash() != after.Hash(),
 		Hashes: append([]string{before.Hash()}, p.Hashes...), Final: after.Hash()}, nil
 }
@@ -511,7 +530,10 @@ type FaultObs struct {
 	Events     int      `json:"events"`    // listener calls
 	EvAfterCm  bool     `json:"evAfterCommit"`
 	Followup   bool     `json:"followupOK"` // a harmless write sent afterwards is answered 2xx (nothing left locked)
-	Hash       string   `json:"hash"`       // snapshot hash after the run
+	Hash       string   `json:"hash"`       // snapshot hash after the run (comparable within one process only)
+	// StateIdx: the indices j such that the snapshot after the run equals the snapshot a clean run of the same
+	// request shows after its j-th writing commit (0: the state before the request). Empty: none of them.
+	StateIdx []int `json:"stateIdx"`
 	Diff       []string `json:"diff,omitempty"`
 	Res        *ReqRes  `json:"res,omitempty"`
 	Incon      string   `json:"inconclusive,omitempty"`
@@ -571,10 +593,26 @@ func RunFaulted(base *Env, baseSnap Snapshot, baseObs LedgerObs, worker string, 
 	out.Events = len(evs)
 	out.EvAfterCm = true
 	abs := f.NewEvents()
+	baseLogs := 0
+	if rows, err := base.PG.Dump(bucketOf(base, rq.L), "logs"); err == nil {
+		for _, r := range rows {
+			if s, ok := r["ledger"].(string); ok && s == rq.L {
+				baseLogs++
+			}
+		}
+	}
 	for j, ev := range evs {
 		out.EvKinds = append(out.EvKinds, ev.Kind)
 		out.EvTx = append(out.EvTx, abs[j].Tx)
-		if j >= len(p.Durable) || ev.CommitN < p.Durable[j].Seq {
+		// the j-th listener call must come after the commit that made the j-th new log row durable
+		ok := false
+		for _, d := range p.Durable {
+			if d.NLogs >= baseLogs+j+1 {
+				ok = ev.CommitN >= d.Seq
+				break
+			}
+		}
+		if !ok {
 			out.EvAfterCm = false
 		}
 	}
